@@ -80,3 +80,5 @@ LEVEL = {
     'technique': 'Coq proof (posting-list invariant by induction over histories; search = set comprehension via the order-embedding theorems '
                  'of C19 and the cursor-scan theorems) + replay of real query answers against the reference answer',
 }
+
+CFG['rule'] = CFG['rule'] + ' ' + 'Strings of the pool now include a 4-byte UTF-8 character (U+10000 and above, lead byte 0xF0..0xF4) directly after a prefix that is queried.'
